@@ -15,8 +15,10 @@ SPEC = dict(
     level_note="Valid UTF-8 without NUL only (hostile bytes are C10's). Eligibility under a platform restriction is witnessed by the lexical path, not decided by a reference predicate.",
     engines=[dict(name="fuzzy", shards=T(16, 16), timeout=T(900, 3600))],
     rule="case = (database - as loaded, after a same-size replacement through UpdateDatabase, after direct growth -, query, threshold, NLP, limit); non-trivial = the lexical answer is empty and the fallback answered; distinct by "
-         "(db, query, threshold, NLP, limit).",
-    floors=T({"databases-with-same-text-pairs-of-different-eligibility": 15, "marker-queries": 500, "large-databases": 10, "lexical-answer-exists": 2000, "fallback-answered": 1500, "fallback-with-threshold": 300, "fallback-empty": 300, "fallback-answered-after:same-size-replacement": 150, "fallback-answered-after:append": 150, "distinct_nontrivial": 1500},
-             {"databases-with-same-text-pairs-of-different-eligibility": 700, "marker-queries": 10000, "large-databases": 300, "lexical-answer-exists": 20000, "fallback-answered": 15000, "fallback-with-threshold": 3000, "fallback-empty": 3000, "fallback-answered-after:same-size-replacement": 1500, "fallback-answered-after:append": 1500, "distinct_nontrivial": 15000}),
+         "(db, query, threshold, NLP, limit). One database in ten has a semantic word table loaded that knows misspellings (a word of the database with one letter dropped, "
+         "close to that word): requests made of them reach the fallback with the semantic stage armed. Four shards (all in the thorough tier) search a database of 65600 to 131101 "
+         "entries whose only in-order matches for the misspelt request are its last 37 entries.",
+    floors=T({"databases-over-65536-entries": 4, "databases-with-a-word-table-holding-misspellings": 15, "misspellings-the-word-table-knows": 60, "databases-with-same-text-pairs-of-different-eligibility": 15, "marker-queries": 500, "large-databases": 10, "lexical-answer-exists": 2000, "fallback-answered": 1500, "fallback-with-threshold": 300, "fallback-empty": 300, "fallback-answered-after:same-size-replacement": 150, "fallback-answered-after:append": 150, "distinct_nontrivial": 1500},
+             {"databases-over-65536-entries": 16, "databases-with-a-word-table-holding-misspellings": 800, "misspellings-the-word-table-knows": 3000, "databases-with-same-text-pairs-of-different-eligibility": 700, "marker-queries": 10000, "large-databases": 300, "lexical-answer-exists": 20000, "fallback-answered": 15000, "fallback-with-threshold": 3000, "fallback-empty": 3000, "fallback-answered-after:same-size-replacement": 1500, "fallback-answered-after:append": 1500, "distinct_nontrivial": 15000}),
     assumptions=["match quality = the score github.com/sahilm/fuzzy assigns to command + ' ' + description of that single entry"],
 )
